@@ -74,10 +74,10 @@ theorem send_input_exact {P : Bytes → Bool} {cfg : Cfg} {dv : LineDev} (hf : F
         some ((raw, expected cfg dv stripPrompt input), (w', [])) ∧
       (∃ L t', (∀ x ∈ L, isWs x = true) ∧ t' <+: dv.trail ∧
         raw = L ++ dv.rbody input ++ NL :: dv.prompt ++ t') ∧
-      w'.writes = w.writes ++ [input, [NL]] ∧ (∀ x ∈ w'.avail, isHws x = true) ∧ w'.held = [] := by
+      w'.writes = w.writes ++ [input, cfg.ret] ∧ (∀ x ∈ w'.avail, isHws x = true) ∧ w'.held = [] := by
   obtain ⟨L, t', t'', cuts', hLws, hLnl, htt, hsend⟩ := sendInput_frames hf input hg stripPrompt w hres hheld
   obtain ⟨ht', ht''⟩ := suffix_hws htt hf.trail_hws
-  refine ⟨_, { avail := t'', cuts := cuts', writes := w.writes ++ [input, [NL]] }, ?_,
+  refine ⟨_, { avail := t'', cuts := cuts', writes := w.writes ++ [input, cfg.ret] }, ?_,
     ⟨L, t', hLws, ⟨t'', htt⟩, rfl⟩, rfl, ht'', rfl⟩
   rw [hsend]
   unfold expected
@@ -92,7 +92,7 @@ theorem session_exact {P : Bytes → Bool} {cfg : Cfg} {dv : LineDev} (hf : Fits
     (w : Wire) (hw : ∀ x ∈ w.avail, isHws x = true) (hheld : w.held = []) :
     ∃ rs w', runCmds cfg dv.onWrite stripPrompt inputs (w, []) = some (rs, (w', [])) ∧
       rs.map (·.2) = inputs.map (expected cfg dv stripPrompt) ∧
-      w'.writes = w.writes ++ (inputs.map (fun i => [i, [NL]])).flatten ∧
+      w'.writes = w.writes ++ (inputs.map (fun i => [i, cfg.ret])).flatten ∧
       (∀ x ∈ w'.avail, isHws x = true) ∧ w'.held = [] :=
   session_in_step hf stripPrompt inputs hg w hw hheld
 
@@ -105,7 +105,7 @@ theorem get_prompt_exact {P : Bytes → Bool} {cfg : Cfg} {dv : LineDev} (hf : F
       ∃ m, cfg.prompt.first x = some m ∧ strip m = strip L)
     (hout : dv.out [] = []) (w : Wire) (hres : ∀ x ∈ w.avail, isHws x = true) (hheld : w.held = []) :
     ∃ w', getPrompt cfg dv.onWrite (w, []) = some (strip dv.prompt, (w', [])) ∧
-      w'.writes = w.writes ++ [[NL]] ∧ (∀ x ∈ w'.avail, isHws x = true) ∧ w'.held = [] :=
+      w'.writes = w.writes ++ [cfg.ret] ∧ (∀ x ∈ w'.avail, isHws x = true) ∧ w'.held = [] :=
   getPrompt_exact hf hfirst hout w hres hheld
 
 /-- **C01, sessions mixing get_prompt and commands in any order** -/
@@ -117,7 +117,7 @@ theorem mixed_session_exact {P : Bytes → Bool} {cfg : Cfg} {dv : LineDev} (hf 
     (hheld : w.held = []) :
     ∃ rs w', runOps cfg dv.onWrite stripPrompt ops (w, []) = some (rs, (w', [])) ∧
       rs = ops.map (expectedOp cfg dv stripPrompt) ∧
-      w'.writes = w.writes ++ (ops.map opWrites).flatten ∧
+      w'.writes = w.writes ++ (ops.map (opWrites cfg.ret)).flatten ∧
       (∀ x ∈ w'.avail, isHws x = true) ∧ w'.held = [] :=
   mixed_session_in_step hf hfirst hout stripPrompt ops hg w hw hheld
 
@@ -126,17 +126,44 @@ theorem mixed_session_exact {P : Bytes → Bool} {cfg : Cfg} {dv : LineDev} (hf 
     surrounding empty lines dropped — `normalizeText` is the property's own wording, written at the
     level of lines, while `_process_output` works on bytes (lstrip / rstrip / join). -/
 theorem expected_is_normalized {P : Bytes → Bool} {cfg : Cfg} {dv : LineDev} (hf : Fits P cfg dv)
-    (input : Bytes) :
+    (input : Bytes) (hpl : Plain (dv.out input)) :
     expected cfg dv false input = normalizeText (dv.rbody input ++ NL :: dv.prompt) :=
   processOutput_lines cfg hf.ret (dv.rbody input) dv.prompt hf.prompt_ne hf.prompt_nl
+    ((rbody_plain hpl).append (nl_cons_plain hf.prompt_plain)).1
 
 /-- the same with strip_prompt on, given that `re.sub` removes exactly the prompt line -/
 theorem expected_is_normalized_strip {P : Bytes → Bool} {cfg : Cfg} {dv : LineDev} (hf : Fits P cfg dv)
-    (input : Bytes)
+    (input : Bytes) (hpl : Plain (dv.out input))
     (hsub : cfg.prompt.sub (joinNL ((splitNL (dv.rbody input ++ NL :: dv.prompt)).map rstrip)) =
       joinNL ((splitNL (dv.rbody input ++ [NL])).map rstrip)) :
     expected cfg dv true input = normalizeText (dv.rbody input ++ [NL]) :=
-  processOutput_lines_strip cfg hf.ret (dv.rbody input) dv.prompt hf.prompt_ne hf.prompt_nl hsub
+  processOutput_lines_strip cfg hf.ret (dv.rbody input) dv.prompt hf.prompt_ne hf.prompt_nl
+    (rbody_plain hpl).1 hsub
+
+/-! ### both return characters of the quantifier (`\n`, `\r\n`) -/
+
+/-- being inside the quantifier does not depend on which of the two return characters is configured -/
+theorem Fits.with_ret {P : Bytes → Bool} {cfg : Cfg} {dv : LineDev} (hf : Fits P cfg dv) {r : Bytes} (hr : IsRet r) :
+    Fits P { cfg with ret := r } dv where
+  search_lines := hf.search_lines
+  strict := hf.strict
+  ret := hr
+  blank := hf.blank
+  noEarly := hf.noEarly
+  promptOK := hf.promptOK
+  prompt_ne := hf.prompt_ne
+  prompt_nl := hf.prompt_nl
+  prompt_plain := hf.prompt_plain
+  trail_hws := hf.trail_hws
+  fits_window := hf.fits_window
+
+/-- **the result of a command does not depend on the return character**: with `\r\n` configured every
+    command of a session returns what it returns with `\n` (all the session theorems above hold for both:
+    `Fits.ret` only asks for one of the two; the device is sent the configured one after each input) -/
+theorem expected_ret_indep {P : Bytes → Bool} {cfg : Cfg} {dv : LineDev} (hf : Fits P cfg dv) {r : Bytes}
+    (hr : IsRet r) (input : Bytes) (hpl : Plain (dv.out input)) :
+    expected { cfg with ret := r } dv false input = expected cfg dv false input := by
+  rw [expected_is_normalized (hf.with_ret hr) input hpl, expected_is_normalized hf input hpl]
 
 /-- `normalizeText` on a concrete response: trailing blanks of lines and surrounding empty lines go -/
 example : normalizeText [10, 10, 97, 32, 32, 10, 10, 98, 9, 10, 32, 10] = [97, 10, 10, 98] := by decide
@@ -157,7 +184,7 @@ example : normalizeText [10, 10, 97, 32, 32, 10, 10, 98, 9, 10, 32, 10] = [97, 1
       step, the next operation starts clean;
     * processed result = `_process_output` of that raw buffer without its leading whitespace. -/
 theorem interact_exact {cfg : Cfg} {complete : List Bytes} (hstrict : cfg.rough = false)
-    (hret : cfg.ret = [NL]) (ps : List (Ev × Step)) (extra : List Step)
+    (hret : IsRet cfg.ret) (ps : List (Ev × Step)) (extra : List Step)
     (hg : ∀ p ∈ ps, ∃ Pr Pc, GoodStep cfg complete Pr Pc p.1 p.2)
     (w : Wire) (hres : ∀ x ∈ w.avail, isHws x = true) (hheld : w.held = []) :
     ∃ raw w', sendInputsInteract cfg scriptDev (ps.map (·.1)) complete (w, ps.map (·.2) ++ extra) =
@@ -166,7 +193,7 @@ theorem interact_exact {cfg : Cfg} {complete : List Bytes} (hstrict : cfg.rough 
       raw ++ w'.avail = w.avail ++ ((consumed complete ps).map (fun p => stepText p.1 p.2)).flatten ∧
       (∀ x ∈ w'.avail, isHws x = true) ∧
       (∀ p, (consumed complete ps).getLast? = some p → w'.avail <:+ p.2.t) ∧
-      w'.writes = w.writes ++ ((consumed complete ps).map (fun p => [p.1.1, [NL]])).flatten ∧
+      w'.writes = w.writes ++ ((consumed complete ps).map (fun p => [p.1.1, cfg.ret])).flatten ∧
       w'.held = [] := by
   obtain ⟨raw, w', h1, h2, h3, h4, h5, h6⟩ := interactLoop_frames hstrict hret ps extra [] w hg hres hheld
   refine ⟨raw, w', ?_, by simpa using h2, h3, h4, h5, h6⟩
@@ -179,7 +206,7 @@ theorem interact_exact {cfg : Cfg} {complete : List Bytes} (hstrict : cfg.rough 
     4c94c83; before it the residue stayed in front of the first line: finding F23) and whatever part
     of the last trailing blanks has been read. -/
 theorem interact_result_normalized {cfg : Cfg} {complete : List Bytes} (hstrict : cfg.rough = false)
-    (hret : cfg.ret = [NL]) (ps : List (Ev × Step)) (extra : List Step)
+    (hret : IsRet cfg.ret) (ps : List (Ev × Step)) (extra : List Step)
     (hg : ∀ p ∈ ps, ∃ Pr Pc, GoodStep cfg complete Pr Pc p.1 p.2)
     (w : Wire) (hres : ∀ x ∈ w.avail, isHws x = true) (hheld : w.held = []) :
     ∃ raw s', sendInputsInteract cfg scriptDev (ps.map (·.1)) complete (w, ps.map (·.2) ++ extra) =
@@ -189,7 +216,18 @@ theorem interact_result_normalized {cfg : Cfg} {complete : List Bytes} (hstrict 
   suffices heq : processOutput cfg (raw.dropWhile isWs) false = normalizeText
       (((consumed complete ps).map (fun p => stepText p.1 p.2)).flatten.dropWhile isWs) from
     ⟨raw, _, by rw [h1, heq]⟩
-  rw [processOutput_eq_normalize cfg hret, ← lstrip_append_hws_normalize raw w'.avail h3, h2,
+  have hcr : CR ∉ raw.dropWhile isWs := by
+    intro hm
+    have hm1 : CR ∈ raw ++ w'.avail := List.mem_append_left _ ((List.dropWhile_suffix isWs).subset hm)
+    rw [h2] at hm1
+    rcases List.mem_append.mp hm1 with h | h
+    · exact (hws_plain hres).1 h
+    · obtain ⟨l, hl, hc⟩ := List.mem_flatten.mp h
+      obtain ⟨p, hp, rfl⟩ := List.mem_map.mp hl
+      have hp' : p ∈ ps := consumed_subset complete ps p hp
+      obtain ⟨Pr, Pc, hgp⟩ := hg p hp'
+      exact hgp.stepText_plain.1 hc
+  rw [processOutput_eq_normalize cfg hret _ hcr, ← lstrip_append_hws_normalize raw w'.avail h3, h2,
     dropWhile_append_all _ _ (hws_ws hres)]
 
 /-! ### non-vacuity: a concrete pattern, device and commands inside the quantifier -/
@@ -213,7 +251,7 @@ theorem exP_len {s : Bytes} (h : exP s = true) : 3 ≤ s.length := by
 theorem exFits : Fits exP exCfg exDev where
   search_lines := fun _ => rfl
   strict := rfl
-  ret := rfl
+  ret := Or.inl rfl
   blank := by
     intro s hs
     rw [Bool.eq_false_iff]; intro h
@@ -275,6 +313,19 @@ example (cuts : List Nat) :
     (by intro i hi; simp at hi; subst hi; exact exGood) { avail := [32], cuts := cuts } (by intro x hx; simp at hx; subst hx; decide) rfl
   ⟨rs, w', h1, h2⟩
 
+/-- the same session with the return character `\r\n`: same results, each command followed by CR NL on the wire -/
+example (cuts : List Nat) :
+    ∃ rs w', runCmds { exCfg with ret := [CR, NL] } exDev.onWrite false [exCmd, exCmd] ({ avail := [32], cuts := cuts }, []) =
+        some (rs, (w', [])) ∧
+      rs.map (·.2) = [exCmd, exCmd].map (expected exCfg exDev false) ∧
+      w'.writes = [exCmd, [CR, NL], exCmd, [CR, NL]] :=
+  let ⟨rs, w', h1, h2, h3, _, _⟩ := session_exact (exFits.with_ret (Or.inr rfl)) false [exCmd, exCmd]
+    (by intro i hi; simp at hi; subst hi; exact exGood) { avail := [32], cuts := cuts } (by intro x hx; simp at hx; subst hx; decide) rfl
+  ⟨rs, w', h1, by
+    rw [h2]
+    simp only [List.map_cons, List.map_nil]
+    rw [expected_ret_indep exFits (Or.inr rfl) exCmd exGood.out_plain], by simpa using h3⟩
+
 /-- the `group(0)` hypothesis of `get_prompt_exact` holds for the example pattern -/
 theorem exFirst : ∀ x L, (splitNL x).find? exP = some L →
     ∃ m, exCfg.prompt.first x = some m ∧ strip m = strip L :=
@@ -297,7 +348,7 @@ example (cuts : List Nat) :
   refine ⟨rs, w', h1, ?_⟩
   rw [h2]
   simp only [List.map_cons, List.map_nil, expectedOp]
-  rw [expected_is_normalized_strip exFits exCmd exSub]
+  rw [expected_is_normalized_strip exFits exCmd exGood.out_plain exSub]
   rfl
 
 /-- **C01 for a real driver pattern**: on a device whose prompt is ANY exec / privilege-exec /
@@ -308,14 +359,14 @@ example (cuts : List Nat) :
     by line with `iosxeP`, which the check compares with CPython on every run. -/
 theorem iosxe_session_exact (cfg : Cfg) (out : Bytes → Bytes) {p : Bytes} (hp : XePrompt p)
     (hS : ∀ x, cfg.prompt.search x = (splitNL x).any iosxeP)
-    (hstrict : cfg.rough = false) (hret : cfg.ret = [NL]) (hwin : p.length < cfg.depth)
+    (hstrict : cfg.rough = false) (hret : IsRet cfg.ret) (hwin : p.length < cfg.depth)
     (stripPrompt : Bool) (inputs : List Bytes)
     (hg : ∀ i ∈ inputs, GoodCmd iosxeP { out := out, prompt := p, trail := [] } i)
     (w : Wire) (hw : ∀ x ∈ w.avail, isHws x = true) (hheld : w.held = []) :
     ∃ rs w', runCmds cfg (LineDev.onWrite { out := out, prompt := p, trail := [] }) stripPrompt inputs (w, []) =
         some (rs, (w', [])) ∧
       rs.map (·.2) = inputs.map (expected cfg { out := out, prompt := p, trail := [] } stripPrompt) ∧
-      w'.writes = w.writes ++ (inputs.map (fun i => [i, [NL]])).flatten ∧
+      w'.writes = w.writes ++ (inputs.map (fun i => [i, cfg.ret])).flatten ∧
       (∀ x ∈ w'.avail, isHws x = true) ∧ w'.held = [] :=
   session_exact (iosxe_fits cfg out hp hS hstrict hret hwin) stripPrompt inputs hg w hw hheld
 
@@ -472,7 +523,7 @@ example (cuts : List Nat) :
     ∃ raw s', sendInputsInteract ixCfg scriptDev [ixEv1, ixEv2] ixComplete
         ({ avail := [32], cuts := cuts }, [ixSt1, ixSt2]) =
       some ((raw, [101, 110, 97, 98, 108, 101, 10, 80, 97, 115, 115, 119, 111, 114, 100, 58, 10, 114, 49, 35]), s') := by
-  obtain ⟨raw, s', h⟩ := interact_result_normalized (cfg := ixCfg) (complete := ixComplete) rfl rfl
+  obtain ⟨raw, s', h⟩ := interact_result_normalized (cfg := ixCfg) (complete := ixComplete) rfl (Or.inl rfl)
     [(ixEv1, ixSt1), (ixEv2, ixSt2)] []
     (by
       intro p hp
@@ -494,7 +545,7 @@ example (cuts : List Nat) :
         ({ cuts := cuts }, [ixSt1b, ixSt2]) =
       some ((raw, processOutput ixCfg (raw.dropWhile isWs) false), (w', [ixSt2])) ∧
       w'.writes = [[101, 110, 97, 98, 108, 101], [NL]] := by
-  obtain ⟨raw, w', h1, _, _, _, h5, _⟩ := interact_exact (cfg := ixCfg) (complete := ixComplete) rfl rfl
+  obtain ⟨raw, w', h1, _, _, _, h5, _⟩ := interact_exact (cfg := ixCfg) (complete := ixComplete) rfl (Or.inl rfl)
     [(ixEv1, ixSt1b), (ixEv2, ixSt2)] []
     (by
       intro p hp
@@ -504,7 +555,7 @@ example (cuts : List Nat) :
       · exact ⟨_, _, ixGood2⟩)
     { cuts := cuts } (by simp) rfl
   exact ⟨raw, w', by simpa [consumed, Step.ends, ixSt1b, ixComplete] using h1,
-    by simpa [consumed, Step.ends, ixSt1b, ixComplete, ixEv1] using h5⟩
+    by simpa [consumed, Step.ends, ixSt1b, ixComplete, ixEv1, ixCfg] using h5⟩
 
 /-- finding F23 (repaired by fix 4c94c83), in the model: WITHOUT the `lstrip()` a blank left unread by
     the previous operation would end up in front of an interactive result -/
